@@ -10,12 +10,19 @@ analyses of independent / weakly / strongly coherent channels):
   d  Hxy_mag_error <= Hxy_rad_error <= (pi/2) Hxy_mag_error for every bin with 0 < g <= 1 (no cap, no clipping: tested where g n << 1)
   e  Hxy_rad_error / Hxy_mag_error -> 1 as g -> 1 (0 <= ratio - 1 <= (1-g)/5 for 1-g <= 0.01);  Hxy_deg_error = 180/pi Hxy_rad_error
   f  auto-spectra: the coherence in the formulas is 1 (Gxx_dev = Gxx/sqrt(n), Gyy_dev = Gxx_dev), cross-only names are None
+  h  the error bars are a function of the estimate, so no READ-ONLY operation on a result may change them: on auto and cross results (multi-bin,
+     single-bin, synthetic; lazy cache cold or warm) every `_dev` / `_error` attribute is snapshotted bit for bit, then a history of operations that
+     must not modify a result is performed on the result or on a copy of it (plot with every `which` / errors / sigma / deg / dB / unwrap / ax,
+     get_measurement of every error attribute, to_dataframe, get_rms, copy / deepcopy / pickle round trips, reads in another order, repr/len/dir);
+     after EVERY step the attributes of the result and of the clones taken before the history are bit-identical to the snapshot, and a-f still hold
   s  (thorough tier, support only, never decided by theorem) Gaussian Monte-Carlo: observed spread of Gxx, coh, |Hxy| over independent
      realisations vs the mean reported deviation; numbers go to the notes, a violation only for a gross (> factor 3) mismatch.
 """
 from __future__ import annotations
 
+import copy
 import math
+import pickle
 import warnings
 from typing import Any, Dict, List
 
@@ -54,7 +61,10 @@ RULE = ("synthetic: SpectrumResults built from (g in {1e-4, 0.01, 0.3, 0.99, 1-1
         "XX, YY over 40 decades, random phase, fs, S2), cross and auto, each also re-built with another n; real: pairs (independent / weak / strong / "
         "delayed / mixed / identical) and single channels through compute_spectrum and compute_single_bin with Kdes in {1,2,5,20}, all orders and "
         "schedulers; distinct by (source, g decade, n, magnitude decade) resp. (pair kind, order, scheduler); non-trivial = 0 < g < 1 and n >= 2 "
-        "(synthetic) / a bin with K >= 2 and 0 < coh < 1 (real)")
+        "(synthetic) / a bin with K >= 2 and 0 < coh < 1 (real); call histories: per round 3 cross results (compute_spectrum, compute_single_bin, "
+        "synthetic) and 2 auto results, cache cold / warm, ~45 shuffled read-only operations each (plots of every kind with sigma in {1,2,3,0.5}, "
+        "get_measurement per error attribute, to_dataframe, get_rms, copies, pickles, permuted reads) applied to the result / its shallow copy / its "
+        "deep copy; distinct by (source, mode, cache state); non-trivial = a plot with an error band and sigma != 1 was drawn")
 
 NAMES = ["Gxx_dev", "Gyy_dev", "Gxy_dev", "Hxy_dev", "coh_dev", "Gxx_error", "Gyy_error", "Gxy_error", "Hxy_mag_error", "Hxy_rad_error",
          "Hxy_deg_error", "coh_error"]
@@ -231,6 +241,259 @@ def check_real(P: C.Part, x, y, fs, opts, kind: str, single) -> None:
     P.hit(f"{src}:{kind}")
 
 
+# ---------------------------------------------------------------- sub-claim h: call histories that must leave the error bars alone
+EST = ["Gxx", "Gyy", "Gxy", "Hxy", "coh", "navg"]
+SIGMAS = [1, 2, 3, 0.5]
+EXTRA_READS = ["cf", "cf_db", "cf_deg", "cf_rad", "cf_deg_unwrapped", "Hxy", "Hyx", "coh", "ccoh", "asd", "psd", "csd", "tf", "ENBW", "Gxx_emp_dev",
+               "Gxy_emp_dev", "XY_emp_dev", "GyySx", "f", "navg"]
+PLOT_KEYS = ("dB", "deg", "unwrap", "errors", "sigma", "color", "ylabel")
+
+
+def bits(v):
+    """bit pattern of an attribute value (None stays None)"""
+    if v is None:
+        return None
+    a = np.asarray(v)
+    return (a.dtype.str, a.shape, a.tobytes())
+
+
+def describe_change(old, new) -> str:
+    if old is None or new is None or np.shape(new) != np.shape(old) or np.asarray(new).dtype != old.dtype:
+        sh = lambda v: "None" if v is None else f"{np.asarray(v).dtype} array of shape {np.shape(v)}"     # noqa: E731
+        return f"was {sh(old)} before the history, is {sh(new)} now"
+    new = np.asarray(new)
+    ne = [j for j in range(old.size) if old.flat[j].tobytes() != new.flat[j].tobytes()]
+    j = ne[0] if ne else 0
+    o_, n_ = old.flat[j], new.flat[j]
+    ratio = f" (ratio {float(n_) / float(o_)!r})" if np.isrealobj(o_) and np.isfinite(o_) and o_ != 0 else ""
+    return f"{len(ne)} of {old.size} bins differ; bin {j}: {o_!r} before the history, {n_!r} now{ratio}"
+
+
+def build_subject(rp: Dict[str, Any]):
+    """the result a history runs on, rebuilt from the replay dict alone -> (result, source label, is-cross, averages per bin or None = navg)"""
+    auto = bool(rp.get("auto"))
+    if "fake" in rp:
+        bins = bins_in(rp["fake"])
+        if auto:
+            bins = [dict(b, YY=b["XX"], XY=complex(b["XX"], 0.0)) for b in bins]
+        return _an.fake_result(bins, not auto, float(rp["fs"])), "synthetic", not auto, None
+    x = np.array(rp["x"], dtype=float)
+    data = x if auto else S.stack(x, np.array(rp["y"], dtype=float), "2xN")
+    if rp["single"]:
+        r = S.single_bin(data, float(rp["fs"]), rp["single"]["freq"], rp["single"]["L"], rp["opts"])
+    else:
+        r = S.spectrum(data, float(rp["fs"]), rp["opts"])
+    return r, ("single_bin" if rp["single"] else "compute_spectrum"), not auto, np.array([len(d) for d in r.D])
+
+
+def make_history(rng: np.random.Generator, iscsd: bool, f: np.ndarray, multi: bool, cold: bool) -> List[Dict[str, Any]]:
+    """a shuffled list of operations none of which may modify a result (every random choice is stored in the op, so the list replays as is)"""
+    b = lambda: bool(rng.integers(2))                                      # noqa: E731
+    sig = lambda: SIGMAS[int(rng.integers(4))]                             # noqa: E731
+    nz = lambda: [2, 3, 0.5][int(rng.integers(3))]                         # noqa: E731
+    on = lambda: ["res", "res", "res", "shallow", "deep"][int(rng.integers(5))]   # noqa: E731
+
+    def pl(which, **kw):
+        return dict({"op": "plot", "which": which, "on": on()}, **kw)
+    if iscsd:
+        first = dict(pl("bode", errors=True, sigma=nz(), deg=True, dB=b(), unwrap=b()), on="res")
+        ops = [pl("bode", errors=True, sigma=nz(), deg=False, dB=b(), unwrap=b()),
+               pl(None, errors=True, sigma=sig(), deg=b(), dB=b()),
+               pl("psd", errors=True, sigma=sig()), pl("asd", errors=True, sigma=sig(), dB=b()), pl("nyquist", errors=True, sigma=sig())]
+        singles = [pl(w, errors=True, sigma=sig(), dB=b(), deg=b(), unwrap=b()) for w in ("coh", "csd", "cf")]
+        singles[int(rng.integers(3))]["color"] = "C1"
+        ops += singles + [pl("bode", errors=False, sigma=nz(), deg=b())] if multi else [singles[int(rng.integers(3))]]
+    else:
+        first = dict(pl("asd", errors=True, sigma=nz()), on="res")
+        ops = [pl("psd", errors=True, sigma=nz(), ax=True, ylabel="y"), pl(None, errors=b(), sigma=sig(), dB=b()),
+               pl("bode", errors=True, sigma=nz(), deg=b()), pl("coh", errors=True, sigma=sig()), pl("csd", errors=True, sigma=sig()),
+               pl("cf", errors=True, sigma=sig(), dB=b())]
+        if multi:
+            ops.append(pl("psd", errors=True, sigma=sig(), color="C1", unwrap=b()))
+    lo, hi = float(f[0]), float(f[-1])
+    span = (hi - lo) if hi > lo else max(abs(lo), 1.0)
+    for k, nm in enumerate(NAMES):
+        fr = [lo + float(u) * span for u in rng.uniform(-0.2, 1.2, size=3)]
+        ops.append({"op": "get_measurement", "name": nm, "freq": fr if (k + int(multi)) % 2 else fr[0], "on": on()})
+    ops += [{"op": "to_dataframe", "on": on()}, {"op": "to_dataframe", "on": "res"},
+            {"op": "get_rms", "band": None, "on": "res"}, {"op": "get_rms", "band": [lo + 0.1 * span, lo + 0.8 * span], "on": on()},
+            {"op": "copy"}, {"op": "deepcopy"}, {"op": "pickle"}, {"op": "repr", "on": on()},
+            {"op": "read", "names": [str(v) for v in rng.permutation(NAMES + EXTRA_READS)], "on": on()},
+            {"op": "read", "names": [str(v) for v in rng.permutation(NAMES)][::-1], "on": "res"}]
+    ops = [ops[int(k)] for k in rng.permutation(len(ops))]
+    if cold:                                        # the band of the first plot is computed lazily by the plot itself
+        return [first] + ops
+    ops.insert(int(rng.integers(len(ops) + 1)), first)
+    return ops
+
+
+def op_text(op: Dict[str, Any]) -> str:
+    if op["op"] == "plot":
+        return "plot(" + ", ".join([f"which={op.get('which')!r}"] + [f"{k}={op[k]!r}" for k in PLOT_KEYS + ("ax",) if k in op]) + ")"
+    if op["op"] == "get_measurement":
+        return f"get_measurement({op['freq']!r}, {op['name']!r})"
+    if op["op"] == "get_rms":
+        return f"get_rms({op.get('band')!r})"
+    return op["op"] + ("" if op["op"] != "read" else " " + ",".join(op["names"][:3]) + ",…")
+
+
+def run_op(objs: Dict[str, Any], op: Dict[str, Any]):
+    """perform one read-only operation; returns the name of the exception it raised (recorded, not a violation) or None"""
+    import matplotlib.pyplot as plt
+    r = objs.get(op.get("on", "res"), objs["res"])
+    k = op["op"]
+    try:
+        with warnings.catch_warnings(), np.errstate(all="ignore"):
+            warnings.simplefilter("ignore")
+            if k == "plot":
+                try:
+                    kw = {key: op[key] for key in PLOT_KEYS if key in op}
+                    if op.get("ax"):
+                        kw["ax"] = plt.subplots()[1]
+                    r.plot(op.get("which"), **kw)
+                finally:
+                    plt.close("all")
+            elif k == "get_measurement":
+                fr = op["freq"]
+                r.get_measurement(np.array(fr, dtype=float) if isinstance(fr, list) else float(fr), op["name"])
+            elif k == "to_dataframe":
+                r.to_dataframe()
+            elif k == "get_rms":
+                r.get_rms(tuple(op["band"]) if op.get("band") else None)
+            elif k == "read":
+                for nm in op["names"]:
+                    getattr(r, nm, None)
+            elif k == "repr":
+                repr(r), len(r), dir(r)
+            elif k == "copy":
+                objs["copy"] = copy.copy(objs["res"])
+            elif k == "deepcopy":
+                objs["deepcopy"] = copy.deepcopy(objs["res"])
+            elif k == "pickle":
+                objs["pickle"] = pickle.loads(pickle.dumps(objs["res"]))
+            else:
+                raise ValueError(k)
+    except Exception as ex:
+        return type(ex).__name__
+    return None
+
+
+def run_history(P: C.Part, rp: Dict[str, Any]) -> None:
+    """sub-claim h on one result: rp = the subject's construction data + "mode" (cold / warm) + "history" (list of ops)"""
+    try:
+        res, src, iscsd, K = build_subject(rp)
+    except Exception as ex:
+        P.hit("history rejected:" + type(ex).__name__)
+        return
+    hist, mode = list(rp["history"]), str(rp.get("mode", "warm"))
+    what = "cross" if iscsd else "auto"
+    label = f"history[{mode} cache]"
+    sig = {"src": src, "check": "history", "mode": what}
+
+    def predicates(r, who: str, upto: int) -> None:
+        rpn = dict(rp, history=hist[:upto])
+        if iscsd:
+            check_cross(P, r, src, rpn, f"{label} after {upto} operations ({who})", n=K)
+        else:
+            check_auto(P, r, src, rpn, f"{label} after {upto} operations ({who})", n=K)
+
+    # snapshot: from the result itself (warm: its lazy cache is filled before the history) or from a deep copy (cold: the history starts on an
+    # untouched result; the copy computes the same expressions from the same numbers by the same code, hence bit for bit the same values)
+    objs: Dict[str, Any] = {"res": res}
+    try:
+        if mode == "cold":
+            objs["ref"] = copy.deepcopy(res)
+        A = attrs(objs.get("ref", res), NAMES + EST)
+        snap = {nm: (bits(A[nm]), None if A[nm] is None else np.array(A[nm], copy=True)) for nm in A}
+        objs["shallow"], objs["deep"] = copy.copy(res), copy.deepcopy(res)
+    except Exception as ex:
+        P.hit("history rejected:" + type(ex).__name__)
+        return
+    n0 = len(P.violations)
+    predicates(objs.get("ref", res), "reference", 0)
+    band = False
+    flagged = set()
+    for i, op in enumerate(hist):
+        if len(P.violations) > n0:
+            break
+        exc = run_op(objs, op)
+        tag = op["op"] + (":" + str(op.get("which")) if op["op"] == "plot" else "")
+        P.hit(f"history {what} {tag}" + (" rejected:" + exc if exc else ""))
+        if exc is None and op["op"] == "plot" and op.get("errors") and op.get("sigma") != 1:
+            band = True
+        changed: Dict[str, List[str]] = {}
+        first: Dict[str, Any] = {}
+        later: List[Any] = []
+        for who, r in objs.items():
+            try:
+                A = attrs(r, NAMES + EST)
+            except Exception as ex:
+                changed.setdefault("<read>", []).append(who)
+                first.setdefault("<read>", f"reading the attributes now raises {type(ex).__name__}: {ex}")
+                continue
+            for nm in NAMES:
+                P.cases += 1
+                if bits(A[nm]) != snap[nm][0]:
+                    changed.setdefault(nm, []).append(who)
+                    first.setdefault(nm, describe_change(snap[nm][1], A[nm]))
+            moved = any(bits(A[nm]) != snap[nm][0] for nm in EST)
+            if (moved or any(who in w for w in changed.values())) and who not in flagged:   # something moved: the functional forms (a-f) decide too
+                flagged.add(who)
+                later.append((r, who))
+                if moved:
+                    P.hit("history: estimate changed")
+        for nm, whos in changed.items():
+            S.add_violation(P, f"{src} {what} {label}: {nm} of the result changed after operation {i + 1} of {len(hist)}, {op_text(op)} applied to "
+                               f"'{op.get('on', 'res')}' (changed on: {', '.join(whos)}): {first[nm]}; a read-only operation must leave the error bars the "
+                               f"textbook function of the estimate", dict(sig, name=nm, op=tag),
+                            dict(rp, history=hist[:i + 1], check="history", name=nm, step=i + 1))
+        for r, who in later:
+            predicates(r, who, i + 1)
+    else:
+        predicates(res, "result", len(hist))
+    if band:
+        P.nontrivial.add(("history", src, what, mode))
+    P.hit(f"history {src} {what} {mode}")
+
+
+def history_stream(P: C.Part, ctx, rng: np.random.Generator, rounds: int) -> None:
+    kinds = ["weak", "mixed", "delayed", "strong", "indep"]
+    for rd in range(rounds):
+        for k in range(5):
+            if ctx.time_left() < (600 if ctx.thorough else 40) or len(P.violations) >= S.MAX_VIOL:
+                return
+            i = 5 * rd + k
+            fs = float(rng.choice([1.0, 2.0, 1000.0, float(rng.uniform(0.1, 1e4))]))
+            auto = k >= 3
+            mode = ["cold", "warm"][(rd + k) % 2]
+            if k == 2 or (k == 4 and rd % 2):                                        # synthetic (corners of g x n) cross / auto
+                rp = {"fake": bins_out(synth_bins(rng, int(rng.choice([1, 7, 13])))), "fs": fs, "auto": auto}
+            else:
+                N = int(rng.choice([257, 1000, 2048]))
+                opts = S.cyc_options(rng, N, int(rng.integers(64)))
+                opts["Kdes"] = int([2, 5, 20][i % 3])
+                x, y = S.pair(rng, N, kinds[i % len(kinds)])
+                single = None
+                if k in (1, 4):
+                    single = {"freq": float(rng.uniform(0.02, 0.48) * fs), "L": int(rng.choice([N // 2, N // 8, int(rng.integers(4, N // 4))]))}
+                rp = S.case_replay(x, None if auto else y, fs, opts, "2xN", "compute_spectrum", single, kinds[i % len(kinds)])
+                rp["auto"] = auto
+            try:
+                subj = build_subject(rp)
+                f = np.array(subj[0].f, dtype=float)
+            except Exception as ex:
+                P.hit("history rejected:" + type(ex).__name__)
+                continue
+            if len(f) == 0:
+                continue
+            rp["mode"] = mode
+            rp["history"] = make_history(rng, subj[2], f, len(f) > 1, mode == "cold")
+            run_history(P, rp)
+            if rd == 0 and k in (0, 3):
+                P.sample({"op": "history", "subject": "synthetic" if "fake" in rp else ("single_bin" if rp["single"] else "compute_spectrum"),
+                          "auto": auto, "mode": mode, "nf": int(len(f)), "first operations": [op_text(o) for o in rp["history"][:6]]})
+
+
 def probe(ctx, P: C.Part) -> None:
     """support run (sub-claim s): Monte-Carlo spread vs reported deviations; non-overlapping Hann segments, white Gaussian input"""
     rng = ctx.rng
@@ -283,6 +546,7 @@ def oracle(ctx, intensive: bool = False, hints: List[Dict[str, Any]] = ()) -> C.
     hb = [h for h in hints if isinstance(h, dict) and h.get("mode") == "cross" and isinstance(h.get("bin"), dict) and h["bin"].get("navg", 0) >= 1]
     if hb:
         check_synth(P, [dict(h["bin"], XY=complex(h["bin"]["XY"])) for h in hb[:40]], [int(h["bin"]["navg"]) + 7 for h in hb[:40]], float(hb[0].get("fs", 1.0)))
+    history_stream(P, ctx, rng, ctx.scale(1, 6) * (4 if intensive else 1))
     n = ctx.scale(150, 1800) * (4 if intensive else 1)
     kinds = ["indep", "weak", "strong", "delayed", "mixed", "identical"]
     for i in range(n):
@@ -316,6 +580,8 @@ def replay(ctx, data) -> C.Part:
         rp = v["replay"]
         if rp.get("probe"):
             probe(ctx, P)
+        elif "history" in rp:
+            run_history(P, rp)
         elif "fake" in rp:
             check_synth(P, bins_in(rp["fake"]), rp["n2"], float(rp["fs"]))
         else:
